@@ -6983,9 +6983,15 @@ def aten_narrow(self: TTensor, dim: INT64, start: INT64, length: INT64) -> TTens
         # PyTorch wraps a negative start once; Slice(start, start + length) would end at 0 or below
         start = start + self.shape[dim]
 
+    start_is_dynamic = not isinstance(start, int)
     dim = op.Reshape(dim, op.Constant(value_ints=[-1]))
     start = op.Reshape(start, op.Constant(value_ints=[-1]))
     length = op.Reshape(length, op.Constant(value_ints=[-1]))
+
+    if start_is_dynamic:
+        # A tensor-valued negative start is wrapped once in the graph, as PyTorch does
+        dim_size = op.Gather(op.Shape(self), dim, axis=0)
+        start = op.Where(op.Less(start, op.Constant(value_ints=[0])), op.Add(start, dim_size), start)
 
     end = op.Add(start, length)
     return op.Slice(self, start, end, dim)
